@@ -17,6 +17,10 @@ RULE = ("cases = (a) fin: the REAL Runner.run/_finish/Promise.join over a script
         "(c) real: invoke.Context().run on real children `exit N` / `kill -SIG $$`, pty on/off, warn on/off, sync/async; "
         "(d) prog: the real Program.run with bodies raising Exit / UnexpectedExit / running a failing real child / parse errors; "
         "(e) histories of several runs on one Runner object; (f) one promise joined several times / left through `with` after joins. "
+        "OUTPUT TEXT is a dimension of (a) and (d): what the failing scripted/real child printed on stdout/stderr (hidden or not) is "
+        "drawn from texts with characters special to Python's own templating ({ } {} {0} {{x}} ${VAR} %s %(x)s %), JSON, tails "
+        "longer than the 10 displayed lines, non-ASCII, empty - the program's exit status and the return/raise decision must not "
+        "depend on it and the failure must be renderable ([render] clause: str()/repr() do not raise). "
         "non-trivial = every case except status-zero-without-any-failure-cause; distinct = distinct case dicts")
 TRUSTED = ["Lean 4.33 kernel", "axioms propext/Classical.choice/Quot.sound only",
            "tools/extractors/runner.py (behavioural probing of Runner._finish, Program.run, Exit.code)",
@@ -39,11 +43,29 @@ TECHNIQUE = "Lean 4 theorems (omega/decide/case analysis, all finite) over regen
 
 QUICK_CODES = [0, 1, 2, 126, 127, 128, 255]
 
+# what the failing command printed: characters special to Python's own templating, JSON, long tails (> 10 lines, the
+# error display shows the last 10), non-ASCII, empty, no trailing newline
+OUT_TEXTS = ["", "plain\n", "{", "}", "{}", "{0}", "{1} {0}\n", "{{x}}\n", "${HOME}\n", "$V %s %(x)s 100%\n", "%", "%d%%\n",
+             '{"k": [1, {"a": 2}], "s": "}"}\n', "{command} {!r} {:>8}\n", "\n\n}\n",
+             "".join("line %d\n" % i for i in range(15)) + "tail {0} {}\n",
+             "head { } {0}\n" + "".join("line %d\n" % i for i in range(14)),
+             "".join("{%d}\n" % i for i in range(25)),
+             "\u00e9t\u00e9 {\u00fc} \u4e2d\n", "no newline {x}", "x" * 3000 + "{}\n"]
+
 
 # ------------------------------------------------------------------ oracles (state the property directly)
 
 def oracle_fin(case, o, twin):
     """o = outcome of the real runner; twin() = outcome of the same scripted run under warn=True (lazy)."""
+    why = oracle_fin_decision(case, o, twin)
+    if why is None and case["thread"] == "none" and o.get("render"):
+        # separate clause: the failure "carries that same complete result" - rendering it is how users see it
+        return "[render] %s raised for a command that printed stdout=%r stderr=%r: %s" % (
+            o["exact"], case.get("out", "hello "), case.get("err", "oops"), o["render"])
+    return why
+
+
+def oracle_fin_decision(case, o, twin):
     if case["thread"] != "none":
         return None  # worker-thread crashes are outside the statement
     wa, to = case["watcher"], case["timer"] == "fired"
@@ -118,7 +140,7 @@ def prog_want(spec):
         return 1
     if b == "ue":
         return spec["exited"]
-    if b == "real":
+    if b in ("real", "scripted", "realout"):
         return spec["want"]
     if b == "exit":
         if spec.get("code") is not None:
@@ -133,6 +155,8 @@ def oracle_prog(spec, got):
         from invoke import Exit
         want = Exit(spec.get("message"), spec.get("code")).code
     if want is not None and got != want:
+        if isinstance(got, str) and got.startswith("crash:"):
+            return "Program.run with %r died with %s instead of exiting with status %r" % (spec, got[6:], want)
         return "Program.run with %r exits with %r, the property demands %r" % (spec, got, want)
     return None
 
@@ -187,7 +211,7 @@ def prog_line(spec):
         return "prog parse"
     if b == "ue":
         return "prog ue %d" % spec["exited"]
-    if b == "real":
+    if b in ("real", "scripted", "realout"):
         return "prog ue %d" % spec["want"]
     return "prog exit %s %d" % ("none" if spec.get("code") is None else spec["code"], 1 if spec.get("message") else 0)
 
@@ -361,9 +385,38 @@ def run(ctx):
     for argv in (["inv", "nosuchtask"], ["inv", "--no-such-core-flag"], ["inv", "probe", "--bogus"], ["inv", "probe", "-x"],
                  ["inv", "-c"]):
         specs.append({"body": "parse", "argv": argv})
+    # (d') OUTPUT TEXT as a dimension: the exit status is the failing command's code WHATEVER the command printed
+    tails = [t for t in OUT_TEXTS if t]
+    for i, text in enumerate(OUT_TEXTS):
+        for hide in (True, "out", "err", None):
+            for where in ("out", "err", "both"):
+                if not big and (i + len(where) + (0 if hide is None else len(str(hide)))) % 2 and hide is not True:
+                    continue
+                o = text if where in ("out", "both") else rng.choice(["", "plain\n"])
+                e = text if where in ("err", "both") else rng.choice(["", "plain\n"])
+                specs.append({"body": "scripted", "out": o, "err": e, "hide": hide, "want": rng.choice([1, 2, 3, 127, 255]),
+                              "pty": False})
+        specs.append({"body": "ue", "exited": rng.choice([1, 7, 255]), "hide": ["stdout", "stderr"], "out": text, "err": text})
+        specs.append({"body": "scripted", "out": text, "err": "", "hide": True, "want": 4, "pty": True})
+    for text in (tails if big else rng.sample(tails, 6)):
+        specs.append({"body": "realout", "out": text, "err": rng.choice(tails), "hide": rng.choice([True, "out", "err"]),
+                      "want": rng.choice([1, 3, 255])})
     for s in specs:
         cases.append({"kind": "prog", "spec": s})
         lines.append(prog_line(s))
+    # (a') the same dimension for direct run() callers: the decision does not depend on the text, and the failure
+    # (or result) can be rendered  [render]
+    for i, text in enumerate(OUT_TEXTS):
+        for hide in (True, None, "out", "err"):
+            for timer, watcher, warn in (("none", False, False), ("fired", False, False), ("none", True, True), ("none", False, True)):
+                if not big and (i + len(str(hide)) + len(timer) + watcher) % 3 == 0:
+                    continue
+                where = rng.choice(["out", "err", "both"])
+                c = {"kind": "fin", "code": rng.choice([1, 2, 255, -9]), "warn": warn, "hide": hide, "pty": rng.random() < 0.25,
+                     "timer": timer, "watcher": watcher, "thread": "none", "async": rng.random() < 0.3,
+                     "out": text if where != "err" else "plain\n", "err": text if where != "out" else ""}
+                cases.append(c)
+                lines.append(fin_line(c))
 
     model = drv.run(lines) if ctx.model_ok else [None] * len(lines)
 
@@ -374,6 +427,8 @@ def run(ctx):
             out.case(c, nontrivial)
             got, why = check_fin(c)
             out.hist["fin:" + got.split()[0]] += 1
+            if "out" in c:
+                out.hist["fin:output-text-dimension"] += 1
             if c["async"]:
                 out.hist["fin:async"] += 1
         elif k == "wait":
@@ -418,6 +473,8 @@ def run(ctx):
             why = oracle_prog(c["spec"], code)
             got = str(code)
             out.hist["prog:" + c["spec"]["body"]] += 1
+            if any(ch in c["spec"].get("out", "") + c["spec"].get("err", "") for ch in "{}%"):
+                out.hist["prog:output-with-template-chars"] += 1
         if m is not None:
             out.traces += 1
             if m != got:
